@@ -311,6 +311,13 @@ pub fn validate(w: &WireReq, cfg: &Cfg, provider: &mut Provider) -> SutResult {
             // ambient configuration B: the protocol version the request arrived with is not an input of the
             // signature; two thirds of the requests are presented as HTTP/2 or HTTP/3 instead of HTTP/1.1
             if crate::env::ambient_b() {
+                // ... and a third of them with every header value flagged "sensitive" (a marker for loggers and header
+                // compression that middleware sets; it is not part of the value)
+                if crate::core::h64(&(&w.uri, &w.headers, w.body.len(), "sensitive")) % 3 == 0 {
+                    for v in req.headers_mut().values_mut() {
+                        v.set_sensitive(true);
+                    }
+                }
                 match crate::core::h64(&(&w.uri, &w.headers, w.body.len(), "version")) % 3 {
                     0 => *req.version_mut() = http::Version::HTTP_2,
                     1 => *req.version_mut() = http::Version::HTTP_3,
